@@ -379,7 +379,7 @@ func ParentMain(id string) int {
 		rb, _ := json.MarshalIndent(map[string]any{
 			"property": id, "signature": sig, "seed": int64(seed), "tier": tier,
 			"replay_cmd": fmt.Sprintf("VERIF_SEED=%d VERIF_TIER=%s ./check.sh %s", int64(seed), tier, id),
-			"witnesses": bysig[sig],
+			"witnesses":  bysig[sig],
 		}, "", " ")
 		os.WriteFile(rp, rb, 0644)
 		fmt.Printf("VIOLATION property=%s replay=%s\n", id, rp)
